@@ -177,6 +177,11 @@ def returns_at_least_param(prog, fi, pname):
         v = p.value
         if v == ('param', pname):
             continue
+        # an element of range(<that parameter>, stop): >= the parameter
+        if kind(v) == 'elem' and kind(v[1]) == 'call' and \
+                v[1][2] == ('builtin', 'range') and len(v[1][3]) == 2 and \
+                v[1][3][0] == ('param', pname):
+            continue
         if kind(v) == 'loopvar' and v[2] == pname:
             # all continue-path deltas of that slot are >= 0
             ok = True
